@@ -23,14 +23,18 @@ def run_scenario(shape, edits, vals, expect_exception=None):
     ir, m, bi, blocks, fl = scen.build(shape)
     from gtirb_rewriting import RewritingContext, _auxdata
     v0 = V.view(ir, m)
-    tgt = blocks[1]
-    info = {"ir": ir, "m": m, "blocks0": blocks, "view0": v0, "shape": shape, "edits": list(edits), "target": tgt,
-            "target_offset": tgt.address - V.BASE, "target_size0": tgt.size, "label_kinds0": validators.label_kinds(m),
-            "target_labels": {s.name for s in tgt.references}}
+    edits = [tuple(e) + ((1,) if len(e) == 4 else ()) for e in edits]
+    text_blocks = [b for b in blocks if b.section.name == ".text"]
+    info = {"ir": ir, "m": m, "blocks0": blocks, "view0": v0, "shape": shape, "edits": list(edits), "default_target": 1,
+            "block_bases": {i: b.address - V.BASE for i, b in enumerate(blocks) if b.section.name == ".text"},
+            "block_index_at": {b.address - V.BASE: i for i, b in enumerate(text_blocks)},
+            "label_kinds0": validators.label_kinds(m),
+            "label_block0": {s.name: blocks.index(s.referent) for s in m.symbols if s.referent in text_blocks},
+            "proxy_deleted": {e[4] for e in edits if e[0] == "delproxy"},
+            "target": blocks[1], "target_offset": blocks[1].address - V.BASE, "target_size0": blocks[1].size}
     ct = _auxdata.cfi_directives.get(m) or {}
     info["endproc_positions"] = {k.element_id.address + k.displacement - V.BASE for k, ds in ct.items() if any(d[0] == ".cfi_endproc" for d in ds)}
     info["startproc_positions"] = {k.element_id.address + k.displacement - V.BASE for k, ds in ct.items() if any(d[0] == ".cfi_startproc" for d in ds)}
-    # procedures as (start position, end position, remember/restore directives inside)
     flat = sorted(((k.element_id.address + k.displacement - V.BASE, i, d[0]) for k, ds in ct.items() for i, d in enumerate(ds)))
     procs, cur = [], None
     for pos, _, name in flat:
@@ -45,7 +49,7 @@ def run_scenario(shape, edits, vals, expect_exception=None):
     info["procedures"] = procs
     ctx = RewritingContext(m, fl)
     for e in edits:
-        scen.register(ctx, tgt, e)
+        scen.register(ctx, blocks[e[4]], e[:4])
     exc = None
     with scen.PatchRecorder() as rec:
         try:
@@ -63,12 +67,12 @@ def run_scenario(shape, edits, vals, expect_exception=None):
     return info, problems
 
 
-def scenario_space(tier, seed, kinds=None, funcs=(False, True), cfis=("none",), anns=("none",), patches=None, doubles=True, data_follows=(False,)):
+def scenario_space(tier, seed, kinds=None, funcs=(False, True), cfis=("none",), anns=("none",), patches=None, doubles=True, data_follows=(False,), multi=True, callee2=(False,)):
     kinds = kinds or list(scen.KINDS)
     patches = patches or ["plain", "jmpL2", "ret", "callg", "jcc", "lab", "lab0", "jmplab"]
     rnd = random.Random(seed)
-    for kind, fn, cfi, ann, df in itertools.product(kinds, funcs, cfis, anns, data_follows):
-        shape = scen.Shape(kind, fn, cfi, ann, df)
+    for kind, fn, cfi, ann, df, c2 in itertools.product(kinds, funcs, cfis, anns, data_follows, callee2):
+        shape = scen.Shape(kind, fn, cfi, ann, df, c2)
         singles = scen.single_edits(kind, patches)
         for e in singles:
             yield shape, [e]
@@ -83,6 +87,17 @@ def scenario_space(tier, seed, kinds=None, funcs=(False, True), cfis=("none",), 
                 both = both[:40]
             for p in both:
                 yield shape, list(p)
+        # several blocks edited in one apply(): whole-block deletions of b0/b1/b2 in every combination (chains of adjacent
+        # deletions, a function losing its entry and then more blocks), and an insertion in b2 combined with an edit of b1
+        if multi:
+            sizes = {0: 1, 1: len(scen.KINDS[kind][0]), 2: 2}
+            for r in (2, 3):
+                for combo in itertools.combinations((0, 1, 2), r):
+                    yield shape, [("del", 0, sizes[t], None, t) for t in combo]
+            for pn in ("plain", "callg", "ret"):
+                for first in (("ins", sizes[1], 0, "plain", 1), ("del", 0, 1, None, 1), ("ins", 0, 0, "callg", 0)):
+                    yield shape, [first, ("ins", 1, 0, pn, 2)]
+                    yield shape, [first, ("ins", 0, 0, pn, 2)]
 
 
 def bounded_job(vals, clauses, bound_text, **space):
